@@ -13,7 +13,7 @@ CHECKS = {
 CHECKS.update({
  "C04": dict(
    technique="property-based testing (proptest): reference apply model (exact result or refusal), diff/apply inverse law directly and through .tinydiff text, exhaustive 4x3 action table",
-   text="Generated-input exploration: generated diffs (every action x absent/unnamed/matching/mismatching target at all five levels, 2- and 3-namespace targets) are applied by quill and by a reference model written from the statement; generated pairs (A,B) check apply(diff(A,B),A)==B directly and through harness-written .tinydiff text; the 12-cell option table is enumerated; the comment of the set itself and the name of the target namespace are diffed / edited like every other value (matching, mismatching and colliding stated values). Holds on everything explored.",
+   text="Generated-input exploration: generated diffs (every action x absent/unnamed/matching/mismatching target at all five levels, 2- and 3-namespace targets) are applied by quill and by a reference model written from the statement; generated pairs (A,B) check apply(diff(A,B),A)==B directly and through harness-written .tinydiff text (pairs with entries lacking the target name may be refused by diff(); an answer must still take A to B); the 12-cell option table is enumerated; the comment of the set itself and the name of the target namespace are diffed / edited like every other value (matching, mismatching and colliding stated values). Holds on everything explored.",
    note="Trusted: reference apply/diff in the harness, harness tinydiff writer. Assumes target namespace index >=1, parameters without source names and non-empty comments for the inverse law (inexpressible in a diff). Unspecified nodes (None on absent target, children below a removal) accept either outcome.",
    ref="DESIGN.md §4 C04"),
  "C08": dict(
@@ -103,7 +103,7 @@ CHECKS.update({
 CHECKS.update({
  "C07": dict(
    technique="property-based testing (proptest): reference renamer over an independent class model applying the remapper's own answers at ~50 JVMS position kinds; jar-level predicates through the zip layer; strict decoder for well-formedness",
-   text="Generated-input exploration: jars of generated classes with manifest, directory and resource entries (given as bytes, parsed trees or a zip archive) are remapped by dukebox with quill remappers built from mapping sets generated over the names the classes use (members declared in super types inside the jar); a reference renamer written from JVMS applies the remapper's own answers to each input class and must equal both the remapped tree and the class re-read from the written jar; entry names, non-class bytes and structural validity are checked on the reopened jar; the remapper's answers themselves are cross-checked against an independent reference remapper over the mapping model and the jar's inheritance (jars with inheritance chains of up to 400 classes); generic signatures and simple inner names must be unchanged or carry the remapper's class names. Holds on everything explored apart from the listed known findings (module data and record components dropped, frames lost when written).",
+   text="Generated-input exploration: jars of generated classes with manifest, directory and resource entries (given as bytes, parsed trees or a zip archive) are remapped by dukebox with quill remappers built from mapping sets generated over the names the classes use (members declared in super types inside the jar); a reference renamer written from JVMS applies the remapper's own answers to each input class and must equal both the remapped tree and the class re-read from the written jar; entry names, non-class bytes and structural validity are checked on the reopened jar; the remapper's answers themselves are cross-checked against an independent reference remapper over the mapping model and the jar's inheritance (jars with inheritance chains of up to 400 classes); jars whose methods need widened jumps when written (30-65 KB geometry classes, an 83 KB javac class) are compared through the instruction alignment of C02; generic signatures and simple inner names must be unchanged or carry the remapper's class names. Holds on everything explored apart from the listed known findings (module data and record components dropped, frames lost when written).",
    note="Trusted: harness model/projection/renamer, strict decoder. Not compared: annotation element names, variable/parameter names, indy/condy names (the remapper gives no answer for them). Generic signatures and simple inner names: original or renamed text accepted, nothing else. Unknown attributes must come out byte-identical.",
    ref="DESIGN.md §4 C07"),
 })
@@ -135,7 +135,7 @@ CHECKS.update({
 CHECKS.update({
  "C05": dict(
    technique="property-based testing (proptest): model-based oracle (each version's mappings derived by generated edit scripts; files are harness-written diffs between the models), metamorphic relation over file-creation order, negative predicates for malformed directories",
-   text="Generated-input exploration: rooted version graphs (chains, trees, diamonds, client~server names) whose per-version mappings derive from their parents by generated edit scripts are written as root .tiny + parent#child .tinydiff files in two generated creation orders on tmpfs; /repo/src/version_graph.rs (compiled into the harness unchanged) must find every version under its name / both halves and report exactly extend(model of that version); malformed directories (no root, two roots, cycles, unreachable and unknown versions) must be refused. Holds on everything explored.",
+   text="Generated-input exploration: rooted version graphs (chains, trees, diamonds, client~server names) whose per-version mappings derive from their parents by generated edit scripts are written as root .tiny + parent#child .tinydiff files in two generated creation orders on tmpfs; /repo/src/version_graph.rs (compiled into the harness unchanged) must find every version under its name / both halves (version names spelled like the Feather repository's: dots, dashes, prefixes of each other) and report exactly extend(model of that version), also where entries lack the target name and gain it on a later edge; get_all, is_root_then_get_mappings and get_diff must agree with get and with the edge files; malformed directories (no root, two roots - also under names sharing a half -, cycles, unreachable and unknown versions) must be refused. Holds on everything explored.",
    note="Trusted: harness mapping model, diff/extend references (C04/C11's), harness tiny/tinydiff writers. Listing orders other than what tmpfs yields for the generated creation orders are not reachable without owning read_dir.",
    ref="DESIGN.md §4 C05"),
 })
@@ -143,7 +143,7 @@ CHECKS.update({
 CHECKS.update({
  "C19": dict(
    technique="property-based testing (proptest): reference resolver written from Maven's documented rules over generated POM universes served in memory; Display/parse round-trip laws",
-   text="Generated-input exploration: acyclic POM universes inside the supported subset (libraries in several versions, parent chains, BOM imports, managed versions/scopes/optional flags, all scopes, classifier and test-jar variants, several repositories serving subsets) are rendered to POM XML, served by an in-memory Downloader and resolved by get_maven_dependencies; the full result list (coordinate, scope, repository, breadth-first order) must equal a reference resolver written from Maven's dependency-mechanism documentation; every result and generated coordinates must survive printing and re-parsing. Holds on everything explored.",
+   text="Generated-input exploration: acyclic POM universes inside the supported subset (libraries in several versions, parent chains, BOM imports incl. BOMs that inherit management from their own parents, dependency paths of up to 300 artifacts, managed versions/scopes/optional flags, all scopes, classifier and test-jar variants, several repositories serving subsets) are rendered to POM XML, served by an in-memory Downloader and resolved by get_maven_dependencies; the full result list (coordinate, scope, repository, breadth-first order) must equal a reference resolver written from Maven's dependency-mechanism documentation; every result and generated coordinates must survive printing and re-parsing. Holds on everything explored.",
    note="Trusted: harness reference resolver (effective POM, scope table, nearest-wins mediation), XML renderer. Real Maven cannot run offline. Supported subset only; a child neither re-declares nor manages a dependency its parent chain declares.",
    ref="DESIGN.md §4 C19"),
 })
